@@ -11,7 +11,7 @@ use bdd_rs::cache::Cache;
 use bdd_rs::raw::RawTable;
 use bdd_rs::reference::Ref;
 use bdd_rs::table::Table;
-use bdd_rs::utils::{pairing2, MyHash, OpKey};
+use bdd_rs::utils::{MyHash, OpKey};
 
 thread_local! {
     static HASH_KIND: Cell<u64> = Cell::new(0);
@@ -26,7 +26,16 @@ pub fn hkind(k: u64, v: u64) -> u64 {
         3 => v.wrapping_mul(v).wrapping_add(7),
         4 => v.wrapping_add(1u64 << 63),
         5 => u64::MAX - v,
-        _ => pairing2(v, v / 3),
+        _ => {
+            // Szudzik pairing of (v, v/3) with wrap-around, written out here: the harness's hash functions must not change
+            // when the crate's own pairing function does
+            let (a, b) = (v, v / 3);
+            if a < b {
+                b.wrapping_mul(b).wrapping_add(a)
+            } else {
+                a.wrapping_mul(a).wrapping_add(a).wrapping_add(b)
+            }
+        }
     }
 }
 
